@@ -35,7 +35,7 @@ decidable predicate `provedKind` (`QV.C02.Spec`), which covers ALL 40 printable 
   DELAY with and without frame names, RAW-CAPTURE into a region not named `i`, CAPTURE and PULSE with waveform
   invocations, CALL where no real immediate is directly followed by an argument named `i`;
 * DEFWAVEFORM, DEFFRAME (string and expression attributes);
-* DEFGATE with all four specifications (MATRIX without an empty row, PERMUTATION, PAULI-SUM, SEQUENCE whose
+* DEFGATE with all four specifications (MATRIX — empty rows included —, PERMUTATION, PAULI-SUM, SEQUENCE whose
   qubit variables are not reserved words);
 * DEFCAL, DEFCAL MEASURE and DEFCIRCUIT whose body consists of one-line kinds (a definition nested in a body is
   outside the proved subset; it is covered by the correspondence check and `C02_regression_nestedCircuit`).
@@ -148,6 +148,7 @@ example : ∃ ts, printProgramTokens stdFmt (build
        .measureCalibrationDefinition ⟨some "m", .variable "q", some "dest"⟩ [.wait, .nop],
        .circuitDefinition "C" ["a"] ["q", "r"] [.gate ⟨"RX", [.var "a"], [.variable "q"], []⟩, .halt],
        .gateDefinition ⟨"M", [], .matrix [[.number ⟨0, 0⟩, .pi], [.var "t", .number ⟨0x3FF0000000000000, 0⟩]]⟩,
+       .gateDefinition ⟨"E", [], .matrix [[], [.pi], []]⟩,
        .gateDefinition ⟨"P", [], .permutation [0, 1, 3, 2]⟩,
        .gateDefinition ⟨"S", ["t"], .pauliSum ⟨["p", "q"], [⟨[(.x, "p"), (.z, "q")], .var "t"⟩]⟩⟩,
        .gateDefinition ⟨"Q", [], .sequence ⟨["a", "b"], [⟨"H", [], [.variable "a"], []⟩,
